@@ -40,6 +40,11 @@ func checkC14(P *Prog, r *Result) {
 		"Equality of destination and issues across renderings of one record is value-level and not decided."
 	P.checkGetByFieldAgreement(r, "C14/getbyfield-agreement")
 	r.floor("C14/getbyfield-agreement", 5)
+	// the key of a field depends only on (field, schema key, the provider's own tag): the canonical return table
+	P.checkTagPriority(r, "C14/key-resolution")
+	// string-typed leaves (form/query/env) become the same values as typed leaves (maps/JSON) through the
+	// documented string rows of the coercers
+	P.checkCoercionTable(r, "C14/string-leaf-coercion")
 
 	// ---- factory-once ----
 	ca := P.newCatchAnalysis()
